@@ -43,6 +43,16 @@ MUTANTS = [
     ("C13", "AddLineUnknownVersion", "lines/creators.py", '      self._check_version_allowed_by_dialect(gfa_line.version)\n', ''),
     ("C10", "ConversionRestores_to_gfa2_s", "gfa.py", '        return "\\n".join(lines)\n      finally:\n        self._take_back_assigned_ids(*unnamed)', '        self._take_back_assigned_ids(*unnamed)\n        return "\\n".join(lines)\n      finally:\n        pass'),
     ("C10", "ConversionRestores_to_gfa2", "gfa.py", "          gfa2.add_line(line.to_gfa2(raise_on_failure=False))\n      finally:\n        self._take_back_assigned_ids(*unnamed)", "          gfa2.add_line(line.to_gfa2(raise_on_failure=False))\n      finally:\n        self._take_back_assigned_ids(unnamed[0], self._max_int_name, unnamed[2])"),
+    ("C02", "UnregisterLine", "lines/destructors.py", "      if not collection:\n        self._records[rt].pop(subkey)", "      if collection:\n        self._records[rt].pop(subkey)"),
+    ("C02", "UnregisterLine", "lines/destructors.py", "      if gfapy.is_placeholder(name):\n        name = id(gfa_line)\n      collection.pop(name)", "      collection.pop(name)"),
+    ("C02", "UnregisterLine", "lines/destructors.py", "    else:\n      collection.pop(id(gfa_line))", "    else:\n      collection.pop(gfa_line.name)"),
+    ("C09", "RegisterLine", "lines/creators.py", "      elif key.isascii() and key.isdigit() and len(key) <= 1000:", "      elif key.isdigit() and len(key) <= 1000:"),
+    ("C09", "RegisterLine", "lines/creators.py", "        if keynum > self._max_int_name:", "        if keynum < self._max_int_name:"),
+    ("C08", "RegisterLine", "lines/creators.py", "    if self._new_virtual_lines is not None and gfa_line.virtual:", "    if self._new_virtual_lines is not None:"),
+    ("C02", "RegisterLine", "lines/creators.py", "        self._records[gfa_line.record_type] = {}\n      self._records[gfa_line.record_type][id(gfa_line)] = gfa_line", "        self._records[gfa_line.record_type] = {}\n      self._records[gfa_line.record_type][gfa_line.name] = gfa_line"),
+    ("C09", "ValidateNoReferenceToOwnName", "line/common/connection.py", "        if isinstance(ref, gfapy.Line):\n          ref = ref.name\n        if ref == name:", "        if ref == name:"),
+    ("C09", "ValidateNoReferenceToOwnName", "line/common/connection.py", "    if gfapy.is_placeholder(name):\n      return\n    if not isinstance(name, str):", "    if not isinstance(name, str):"),
+    ("C09", "ValidateNoReferenceToOwnName", "line/common/connection.py", "      for ref in (value if isinstance(value, list) else [value]):\n        if isinstance(ref, gfapy.OrientedLine):\n          ref = ref.line", "      for ref in (value[1:] if isinstance(value, list) else [value]):\n        if isinstance(ref, gfapy.OrientedLine):\n          ref = ref.line"),
     ("C10", "TakeBackAssignedIds", "gfa.py", "    self._max_int_name = max_int_name", "    pass"),
     ("C10", "TakeBackAssignedIds", "gfa.py", "    for rt in records:\n      self._records[rt] = records[rt]", "    for rt in records:\n      self._records[rt] = records[\"L\"]"),
     ("C10", "TakeBackAssignedIds", "gfa.py", '      if l.is_connected() and l.get("ID") is not None:', '      if l.get("ID") is not None:'),
